@@ -5,6 +5,7 @@ package run_test
 // C05 - a distributed query reads every shard exactly once or fails. DESIGN.md section 4, C05.
 
 import (
+	"github.com/influxdata/influxdb/services/meta"
 	"fmt"
 	"os"
 	"strings"
@@ -46,6 +47,7 @@ func TestVerifC05DistributedQuery(t *testing.T) {
 			nd.proxy.takeLog()
 		}
 		var pts []models.Point
+		var ptTimes []int64
 		total := 0
 		var sumV float64
 		var sumU uint64
@@ -58,13 +60,40 @@ func TestVerifC05DistributedQuery(t *testing.T) {
 				sumV += v
 				sumU += u
 				total++
+				ptTimes = append(ptTimes, base+int64(g)*3600+int64(i))
 				pts = append(pts, models.MustNewPoint("m", models.NewTags(map[string]string{"h": fmt.Sprintf("g%di%d", g, i)}),
 					models.Fields{"v": v, "u": u}, time.Unix(base+int64(g)*3600+int64(i), 0)))
 			}
 		}
 		wnode := rapid.IntRange(0, 2).Draw(rt, "writeNode")
-		if err := cl.write(wnode, db, pts); err != nil {
+		// replication factor changed part-way (ALTER RETENTION POLICY ... REPLICATION n): the groups created
+		// before and after have different numbers of owners, so one node's shards differ in who else owns them
+		rf2 := rf
+		if rapid.IntRange(0, 2).Draw(rt, "alterRF") == 0 {
+			rf2 = rapid.IntRange(1, 3).Draw(rt, "rf2")
+		}
+		switchAt := base + int64(rapid.IntRange(1, groups).Draw(rt, "alterBeforeGroup"))*3600
+		var first, second []models.Point
+		for i, p := range pts {
+			if rf2 != rf && ptTimes[i] >= switchAt {
+				second = append(second, p)
+			} else {
+				first = append(first, p)
+			}
+		}
+		if err := cl.write(wnode, db, first); err != nil {
 			rt.Fatalf("write at consistency all with every node up failed: %v", err)
+		}
+		if len(second) > 0 {
+			if err := cl.nodes[0].srv.MetaClient.UpdateRetentionPolicy(db, "rp", &meta.RetentionPolicyUpdate{ReplicaN: &rf2}, false); err != nil {
+				rt.Fatalf("harness: alter retention policy: %v", err)
+			}
+			if err := cl.syncMeta(); err != nil {
+				rt.Fatalf("harness: %v", err)
+			}
+			if err := cl.write(wnode, db, second); err != nil {
+				rt.Fatalf("write at consistency all with every node up failed: %v", err)
+			}
 		}
 		if err := cl.syncMeta(); err != nil {
 			rt.Fatalf("harness: %v", err)
@@ -83,6 +112,64 @@ func TestVerifC05DistributedQuery(t *testing.T) {
 			{"showTagValues", "SHOW TAG VALUES WITH KEY = h", func(r vkResult) string { return vkWantRows(r, total) }},
 			{"showFieldKeys", "SHOW FIELD KEYS", func(r vkResult) string { return vkWantContains(r, "[v float]") }},
 			{"showSeries", "SHOW SERIES", func(r vkResult) string { return vkWantRows(r, total) }},
+		}
+		boundLo, boundHi := int64(-1<<62), int64(1<<62) // range (seconds) of the bounded statements
+		// time-bounded statements whose bound is exactly the first (or last) nanosecond of a shard group: the
+		// group at the bound overlaps the range and must be read
+		{
+			bg := rapid.IntRange(0, groups).Draw(rt, "boundGroup")
+			T := base + int64(bg)*3600
+			op := rapid.SampledFrom([]string{"<=", "<", ">=", ">", "="}).Draw(rt, "boundOp")
+			n := 0
+			for _, ts := range ptTimes {
+				switch op {
+				case "<=":
+					if ts <= T {
+						n++
+					}
+				case "<":
+					if ts < T {
+						n++
+					}
+				case ">=":
+					if ts >= T {
+						n++
+					}
+				case ">":
+					if ts > T {
+						n++
+					}
+				default:
+					if ts == T {
+						n++
+					}
+				}
+			}
+			switch op {
+			case "<=":
+				boundHi = T
+			case "<":
+				boundHi = T - 1
+			case ">=":
+				boundLo = T
+			case ">":
+				boundLo = T + 1
+			default:
+				boundLo, boundHi = T, T
+			}
+			cond := fmt.Sprintf("time %s %ds", op, T)
+			wantCount := func(r vkResult) string {
+				if n == 0 {
+					return vkWantSeries(r, 0)
+				}
+				return vkWantContains(r, fmt.Sprintf(" %d]", n))
+			}
+			stmts = append(stmts,
+				vkStmt{"countBounded", "SELECT count(v) FROM m WHERE " + cond, wantCount},
+				vkStmt{"countBounded", "SELECT count(v) FROM m WHERE " + cond, wantCount},
+				vkStmt{"rawBounded", "SELECT v FROM m WHERE " + cond, func(r vkResult) string { return vkWantRows(r, n) }},
+				vkStmt{"rawBounded", "SELECT u FROM m WHERE " + cond, func(r vkResult) string { return vkWantRows(r, n) }},
+			)
 		}
 		st := rapid.SampledFrom(stmts).Draw(rt, "stmt")
 		r0 := cl.query(coord, db, st.Text)
@@ -139,6 +226,7 @@ func TestVerifC05DistributedQuery(t *testing.T) {
 		// undo faults before judging (so that a failing case leaves the shared cluster usable)
 		avoided := 0
 		faultyAsked := false
+		var reqLog []string
 		for i, nd := range cl.nodes {
 			if faults[i].Kind == "disabled" {
 				for id, os := range owners {
@@ -154,7 +242,7 @@ func TestVerifC05DistributedQuery(t *testing.T) {
 				if faults[i].Kind != "up" && faults[i].Kind != "" {
 					faultyAsked = true
 				}
-				_ = e
+				reqLog = append(reqLog, fmt.Sprintf("n%d<-type%d%v", i, e.Type, e.ShardIDs))
 			}
 			nd.proxy.mu.Lock()
 			avoided += nd.proxy.avoided
@@ -164,9 +252,28 @@ func TestVerifC05DistributedQuery(t *testing.T) {
 		for i := 0; i < avoided; i++ {
 			stats.Exclude("remote-stream-cut-at-frame-boundary")
 		}
-		// must succeed when every shard keeps an owner that answers at request time
+		// must succeed when every shard (of the statement's time range) keeps an owner that answers at request time
+		bounded := strings.HasSuffix(st.Kind, "Bounded")
+		inRange := map[uint64]bool{}
+		if rpi, err := cl.nodes[0].srv.MetaClient.RetentionPolicy(db, "rp"); err == nil && rpi != nil {
+			for _, sg := range rpi.ShardGroups {
+				if sg.Deleted() {
+					continue
+				}
+				// the group covers [StartTime, EndTime); the statement covers [boundLo, boundHi] (whole seconds)
+				if !bounded || (sg.StartTime.Unix() <= boundHi && sg.EndTime.Unix() > boundLo) {
+					for _, sh := range sg.Shards {
+						inRange[sh.ID] = true
+					}
+				}
+			}
+		}
 		servable := true
-		for _, os := range owners {
+		anyGood := false
+		for id, os := range owners {
+			if !inRange[id] {
+				continue
+			}
 			good := false
 			for _, o := range os {
 				for i, nd := range cl.nodes {
@@ -175,6 +282,14 @@ func TestVerifC05DistributedQuery(t *testing.T) {
 					}
 					if i == coord || faults[i].Kind == "up" || (faults[i].Kind == "delay" && faults[i].Delay < time.Second) {
 						good = true
+						// does this reachable owner know the field (has the shard seen a point)?
+						if sh := nd.srv.TSDBStore.Shard(id); sh != nil {
+							if eng, err := sh.Engine(); err == nil {
+								if mf := eng.MeasurementFieldSet().Fields([]byte("m")); mf != nil && mf.Field("v") != nil {
+									anyGood = true
+								}
+							}
+						}
 					}
 				}
 			}
@@ -190,15 +305,21 @@ func TestVerifC05DistributedQuery(t *testing.T) {
 			// known finding show-listing-ignores-node-errors: excluded from the main campaign
 			stats.Exclude("show-listing-ignores-node-errors")
 			outcome = "excluded-known"
+		} else if rf1.String() != r0.String() && len(rf1.Rows) == 0 && !anyGood && !strings.HasPrefix(st.Kind, "show") {
+			// known finding maptype-rpc-failure-yields-empty-result: no node that can be reached knows the
+			// field (every shard of the time range that holds a point has only failing owners), the field type stays unknown
+			// and the SELECT is empty instead of failing. Excluded from the main campaign (directed test below).
+			stats.Exclude("maptype-rpc-failure-yields-empty-result")
+			outcome = "excluded-known"
 		} else if rf1.String() != r0.String() {
-			rt.Fatalf("%s %q on node %d under faults %v returned a result that differs from the fault-free result and is not an error (rf=%d, owners %v)\n--- under faults\n%s\n--- fault-free\n%s",
-				verifkit.Sig("silently-incomplete-result"), st.Text, coord, fkinds, rf, owners, rf1, r0)
+			rt.Fatalf("%s %q on node %d under faults %v returned a result that differs from the fault-free result and is not an error (rf=%d, owners %v; requests seen by the proxies: %v)\n--- under faults\n%s\n--- fault-free\n%s",
+				verifkit.Sig("silently-incomplete-result"), st.Text, coord, fkinds, rf, owners, reqLog, rf1, r0)
 		}
 		if servable && requestTimeOnly && outcome == "error" && strings.HasPrefix(st.Kind, "show") == false {
 			rt.Fatalf("%s %q on node %d failed (%s) although every shard has an owner that is up and answering; faults %v, rf=%d, owners %v",
 				verifkit.Sig("no-failover-to-live-owner"), st.Text, coord, rf1.Err, fkinds, rf, owners)
 		}
-		cls := []string{"stmt:" + st.Kind, "outcome:" + outcome, fmt.Sprintf("rf:%d", rf)}
+		cls := []string{"stmt:" + st.Kind, "outcome:" + outcome, fmt.Sprintf("rf:%d", rf), fmt.Sprintf("mixedRF:%v", len(second) > 0)}
 		for _, f := range faults {
 			cls = append(cls, "fault:"+f.Kind)
 		}
